@@ -8,6 +8,8 @@ mod handle;
 mod msgpack;
 #[cfg(feature = "hooks")]
 mod utf;
+#[cfg(feature = "hooks")]
+mod transcode;
 
 use std::fs::File;
 use std::io::{BufWriter, Write};
@@ -71,6 +73,20 @@ fn main() {
 			let j = serde_json::json!({
 				"cases": st.cases, "kinds": st.kinds, "ends": st.ends, "nontrivial": st.nontrivial,
 				"scalars_covered": st.scalars_covered, "exhaustive_scalars": st.exhaustive_scalars,
+				"oracle_failures": st.oracle_failures, "samples": st.samples,
+			});
+			println!("{j}");
+		}
+		#[cfg(feature = "hooks")]
+		"transcode" => {
+			let mut cw = BufWriter::new(File::create(format!("{out}/cases.txt")).unwrap());
+			let mut iw = BufWriter::new(File::create(format!("{out}/impl.txt")).unwrap());
+			let st = transcode::generate_and_run(seed, &tier, &mut cw, &mut iw);
+			cw.flush().unwrap();
+			iw.flush().unwrap();
+			let j = serde_json::json!({
+				"cases": st.cases, "exhaustive_scripts": st.exhaustive_scripts, "max_nodes": st.max_nodes,
+				"outcomes": st.outcomes, "nontrivial": st.nontrivial,
 				"oracle_failures": st.oracle_failures, "samples": st.samples,
 			});
 			println!("{j}");
